@@ -259,7 +259,7 @@ obligation here. -/
 
 /-- `project_point_to_plane` passes `factor=-1`: the model's `projectFactor`. -/
 theorem gen_project_factor :
-    PW.Gen.PlaneFn.projectFactor = -1 ∧ PW.Gen.PlaneFn.projectCallOk = true ∧
+    PW.Gen.PlaneFn.projectFactor = -1 ∧ PW.Gen.PlaneFn.projectCallOk = some true ∧
     (projectFactor (K := K)) = ((PW.Gen.PlaneFn.projectFactor : Int) : K) ∧
     ∀ (p : V3 K) (e : V4 K),
       projectPointToPlane p e = translateAlongNormal p e ((PW.Gen.PlaneFn.projectFactor : Int) : K) := by
@@ -270,7 +270,7 @@ theorem gen_project_factor :
 
 /-- `mirror_point_across_plane` passes `factor=-2`: the model's `mirrorFactor`. -/
 theorem gen_mirror_factor :
-    PW.Gen.PlaneFn.mirrorFactor = -2 ∧ PW.Gen.PlaneFn.mirrorCallOk = true ∧
+    PW.Gen.PlaneFn.mirrorFactor = -2 ∧ PW.Gen.PlaneFn.mirrorCallOk = some true ∧
     (mirrorFactor (K := K)) = ((PW.Gen.PlaneFn.mirrorFactor : Int) : K) ∧
     ∀ (p : V3 K) (e : V4 K),
       mirrorPointAcrossPlane p e = translateAlongNormal p e ((PW.Gen.PlaneFn.mirrorFactor : Int) : K) := by
@@ -283,40 +283,128 @@ theorem gen_mirror_factor :
   rw [← h]
   rfl
 
-/-- `translate_points_along_plane_normal` returns `points + factor * signed_distance * normals` (single point and
-    stack), `signed_distance_to_plane` returns `vg.dot(points, normals) + offsets`, and
-    `normal_and_offset_from_plane_equations` splits `[A, B, C | D]`: the expressions `translateAlongNormal`,
-    `signedDistanceEq`, `eqNormal`, `eqOffset` were written from (operands in the translator's normal order). -/
+/-- [semantic + text] `translate_points_along_plane_normal` returns `points + factor * signed_distance * normals`
+    (single point and stack), `signed_distance_to_plane` returns `vg.dot(points, normals) + offsets`, and
+    `normal_and_offset_from_plane_equations` splits `[A, B, C | D]` at index 3.  The generated sums-of-products, evaluated
+    at the model's values of their atoms, ARE the model's `translateAlongNormal` (per coordinate) and `signedDistanceEq`;
+    the generated slice bound / index select the model's `eqNormal` / `eqOffset` out of `[A, B, C, D]`.
+    (Text only: the `…Src` strings, kept as a readable record; `stackedEquations…` — the `ndim == 2` dispatch is array
+    plumbing with no counterpart in the model.) -/
 theorem gen_translate_formula :
-    PW.Gen.PlaneFn.translateSrc = "NORMALS * factor * SD + points" ∧
-    PW.Gen.PlaneFn.translateStackedSrc = "NORMALS * factor * SD.reshape(-1, 1) + points" ∧
-    PW.Gen.PlaneFn.signedDistanceSrc = "OFFSETS + vg.dot(points, NORMALS)" ∧
-    PW.Gen.PlaneFn.normalOffsetSrc =
-      "(plane_equations[:, :3] if plane_equations.ndim == 2 else plane_equations[:3], plane_equations[:, 3] if plane_equations.ndim == 2 else plane_equations[3])" :=
-  ⟨rfl, rfl, rfl, rfl⟩
+    (PW.Gen.PlaneFn.translateSrc = "NORMALS * factor * SD + points" ∧
+      PW.Gen.PlaneFn.translateStackedSrc = "NORMALS * factor * SD.reshape(-1, 1) + points" ∧
+      PW.Gen.PlaneFn.signedDistanceSrc = "OFFSETS + vg.dot(points, NORMALS)" ∧
+      PW.Gen.PlaneFn.normalOffsetSrc =
+        "(plane_equations[:, :3] if plane_equations.ndim == 2 else plane_equations[:3], plane_equations[:, 3] if plane_equations.ndim == 2 else plane_equations[3])" ∧
+      PW.Gen.PlaneFn.stackedEquationsCmp = .eq ∧ PW.Gen.PlaneFn.stackedEquationsLhs = "plane_equations.ndim" ∧
+      PW.Gen.PlaneFn.stackedEquationsRhs = 2) ∧
+    (∀ (p : V3 K) (e : V4 K) (factor : K),
+      let env := fun (pc nc : K) => PW.Gen.envOf
+        [("points", pc), ("NORMALS", nc), ("SD", signedDistanceEq p e), ("SD.reshape(-1, 1)", signedDistanceEq p e),
+         ("factor", factor)]
+      (translateAlongNormal p e factor).x = PW.Gen.PlaneFn.translatePoly.eval (env p.x (eqNormal e).x) ∧
+      (translateAlongNormal p e factor).y = PW.Gen.PlaneFn.translatePoly.eval (env p.y (eqNormal e).y) ∧
+      (translateAlongNormal p e factor).z = PW.Gen.PlaneFn.translatePoly.eval (env p.z (eqNormal e).z) ∧
+      (translateAlongNormal p e factor).x = PW.Gen.PlaneFn.translateStackedPoly.eval (env p.x (eqNormal e).x) ∧
+      (translateAlongNormal p e factor).y = PW.Gen.PlaneFn.translateStackedPoly.eval (env p.y (eqNormal e).y) ∧
+      (translateAlongNormal p e factor).z = PW.Gen.PlaneFn.translateStackedPoly.eval (env p.z (eqNormal e).z)) ∧
+    (∀ (p : V3 K) (e : V4 K), signedDistanceEq p e =
+      PW.Gen.PlaneFn.signedDistancePoly.eval
+        (PW.Gen.envOf [("OFFSETS", eqOffset e), ("vg.dot(points, NORMALS)", p.dot (eqNormal e))])) ∧
+    (∀ (e : V4 K), ∀ stop ∈ PW.Gen.PlaneFn.normalSliceStops, ∀ i ∈ PW.Gen.PlaneFn.offsetIndices,
+      [(eqNormal e).x, (eqNormal e).y, (eqNormal e).z] = [e.x, e.y, e.z, e.w].take stop.toNat ∧
+      some (eqOffset e) = PW.Gen.pyGet? [e.x, e.y, e.z, e.w] i) := by
+  refine ⟨⟨rfl, rfl, rfl, rfl, by decide, rfl, by decide⟩, ?_, ?_, ?_⟩
+  · intro p e factor
+    simp only [PW.Gen.PlaneFn.translatePoly, PW.Gen.PlaneFn.translateStackedPoly, PW.Gen.Poly.eval, PW.Gen.prodOf,
+      PW.Gen.envOf, translateAlongNormal, V3.add_x, V3.add_y, V3.add_z, V3.smul_x, V3.smul_y, V3.smul_z]
+    simp only [String.reduceEq, if_true, if_false]
+    refine ⟨?_, ?_, ?_, ?_, ?_, ?_⟩ <;> push_cast <;> ring
+  · intro p e
+    simp only [PW.Gen.PlaneFn.signedDistancePoly, PW.Gen.Poly.eval, PW.Gen.prodOf, PW.Gen.envOf, signedDistanceEq]
+    simp only [String.reduceEq, if_true, if_false]
+    push_cast
+    ring
+  · intro e stop hs i hi
+    simp only [PW.Gen.PlaneFn.normalSliceStops, PW.Gen.PlaneFn.offsetIndices, List.mem_cons, List.mem_nil_iff,
+      or_false, or_self] at hs hi
+    subst hs hi
+    exact ⟨rfl, rfl⟩
+
+/-- the model function a `plane_functions` name stands for (`none`: unknown name — falsifies the tie) -/
+def pointFnOfName (s : String) : Option (V3 K → V4 K → V3 K) :=
+  if s = "project_point_to_plane" then some projectPointToPlane
+  else if s = "mirror_point_across_plane" then some mirrorPointAcrossPlane else none
+
+/-- the model function a NumPy wrapper name stands for, on a signed distance -/
+def absOfName (s : String) (x : K) : Option K :=
+  if s = "np.absolute" then some (if x < 0 then -x else x) else if s = "np.abs" then some (if x < 0 then -x else x) else none
+
+/-- [semantic + text] the thin methods.  Semantic: `project_point` / `mirror_point` call the module functions the model's
+    `projectPoint` / `mirrorPoint` call, on `(points, self.equation)`; `signed_distance` calls `signed_distance_to_plane`
+    (the model's `signedDistance` is `signedDistanceEq` of the equation); `distance` wraps the signed distance in
+    `np.absolute` (the model's `distance`), `sign` in `np.sign` (the model's `sgn`); `canonical_point`, as a product of
+    atoms, is the model's `canonicalPoint` per coordinate; `flipped` keeps the reference point and negates the normal with
+    the generated coefficients.  (The name ↔ model-function tables `pointFnOfName`, `absOfName` and `"np.sign"` ↔ `sgn`,
+    `"signed_distance_to_plane"` ↔ `signedDistanceEq` are written by hand.)  Text only: the `…Src` strings (record). -/
+theorem gen_method_bodies :
+    (PW.Gen.PlaneFn.signSrc = "np.sign(self.signed_distance(points))" ∧
+      PW.Gen.PlaneFn.signedDistanceMethodSrc = "signed_distance_to_plane(points, self.equation)" ∧
+      PW.Gen.PlaneFn.distanceSrc = "np.absolute(self.signed_distance(points))" ∧
+      PW.Gen.PlaneFn.projectMethodSrc = "project_point_to_plane(points, self.equation)" ∧
+      PW.Gen.PlaneFn.mirrorMethodSrc = "mirror_point_across_plane(points, self.equation)" ∧
+      PW.Gen.PlaneFn.canonicalPointSrc = "self.normal * self.reference_point.dot(self.normal)" ∧
+      PW.Gen.PlaneFn.flippedSrc = "Plane(normal=-self.normal, reference_point=self.reference_point)") ∧
+    (PW.Gen.PlaneFn.signedDistanceMethodArgs = ["points", "self.equation"] ∧
+      PW.Gen.PlaneFn.projectMethodArgs = ["points", "self.equation"] ∧
+      PW.Gen.PlaneFn.mirrorMethodArgs = ["points", "self.equation"] ∧
+      PW.Gen.PlaneFn.signInner = "self.signed_distance(points)" ∧
+      PW.Gen.PlaneFn.distanceInner = "self.signed_distance(points)" ∧
+      PW.Gen.PlaneFn.flippedNormalTerm = "self.normal" ∧ PW.Gen.PlaneFn.flippedRefTerm = "self.reference_point") ∧
+    (∀ (pl : Plane K) (p : V3 K),
+      some (pl.projectPoint p) = (pointFnOfName PW.Gen.PlaneFn.projectMethodCallee).map (fun f => f p pl.equation) ∧
+      some (pl.mirrorPoint p) = (pointFnOfName PW.Gen.PlaneFn.mirrorMethodCallee).map (fun f => f p pl.equation) ∧
+      some (pl.signedDistance p) =
+        (if PW.Gen.PlaneFn.signedDistanceMethodCallee = "signed_distance_to_plane"
+          then some (signedDistanceEq p pl.equation) else none) ∧
+      some (pl.distance p) = absOfName PW.Gen.PlaneFn.distanceWrapper (pl.signedDistance p) ∧
+      some (pl.sign p) =
+        (if PW.Gen.PlaneFn.signWrapper = "np.sign" then some (sgn (pl.signedDistance p)) else none)) ∧
+    (∀ (pl : Plane K),
+      let env := fun (nc : K) => PW.Gen.envOf
+        [("self.normal", nc), ("self.reference_point.dot(self.normal)", pl.ref.dot pl.n)]
+      pl.canonicalPoint.x = PW.Gen.PlaneFn.canonicalPointPoly.eval (env pl.n.x) ∧
+      pl.canonicalPoint.y = PW.Gen.PlaneFn.canonicalPointPoly.eval (env pl.n.y) ∧
+      pl.canonicalPoint.z = PW.Gen.PlaneFn.canonicalPointPoly.eval (env pl.n.z)) ∧
+    (∀ (pl : Plane K),
+      let c := fun (k d : Int) (v : V3 K) => V3.smul (k : K) v + (⟨(d : K), (d : K), (d : K)⟩ : V3 K)
+      pl.flipped =
+        ⟨c PW.Gen.PlaneFn.flippedRefCoef PW.Gen.PlaneFn.flippedRefConst pl.ref,
+         c PW.Gen.PlaneFn.flippedNormalCoef PW.Gen.PlaneFn.flippedNormalConst pl.n⟩) := by
+  refine ⟨⟨rfl, rfl, rfl, rfl, rfl, rfl, rfl⟩, ⟨by decide, by decide, by decide, rfl, rfl, rfl, rfl⟩, ?_, ?_, ?_⟩
+  · intro pl p
+    refine ⟨rfl, rfl, rfl, ?_, rfl⟩
+    simp [absOfName, PW.Gen.PlaneFn.distanceWrapper, Plane.distance]
+  · intro pl
+    simp only [PW.Gen.PlaneFn.canonicalPointPoly, PW.Gen.Poly.eval, PW.Gen.prodOf, PW.Gen.envOf, canonicalPoint,
+      V3.smul_x, V3.smul_y, V3.smul_z]
+    simp only [String.reduceEq, if_true, if_false]
+    refine ⟨?_, ?_, ?_⟩ <;> push_cast <;> ring
+  · intro pl
+    simp only [PW.Gen.PlaneFn.flippedRefCoef, PW.Gen.PlaneFn.flippedRefConst, PW.Gen.PlaneFn.flippedNormalCoef,
+      PW.Gen.PlaneFn.flippedNormalConst, Plane.flipped]
+    congr 1 <;> ext <;> simp [V3.smul_x, V3.smul_y, V3.smul_z]
 
 /-- `Plane.equation` is `[A, B, C, D]` with `A, B, C = self.normal` and `D = -self.reference_point.dot(self.normal)`:
     the model's `Plane.equation` has exactly this last entry. -/
 theorem gen_equation_offset :
-    PW.Gen.PlaneFn.equationNormalOk = true ∧ PW.Gen.PlaneFn.equationDCoef = -1 ∧
+    PW.Gen.PlaneFn.equationNormalOk = some true ∧ PW.Gen.PlaneFn.equationDCoef = -1 ∧
     PW.Gen.PlaneFn.equationDTerm = "self.reference_point.dot(self.normal)" ∧ PW.Gen.PlaneFn.equationDConst = 0 ∧
     ∀ pl : Plane K, pl.equation.w =
       ((PW.Gen.PlaneFn.equationDCoef : Int) : K) * pl.ref.dot pl.n + ((PW.Gen.PlaneFn.equationDConst : Int) : K) := by
   refine ⟨by decide, by decide, rfl, by decide, ?_⟩
   intro pl
   simp [equation, PW.Gen.PlaneFn.equationDCoef, PW.Gen.PlaneFn.equationDConst]
-
-/-- the thin methods delegate as the model's `sign`, `signedDistance`, `distance`, `projectPoint`, `mirrorPoint`,
-    `canonicalPoint`, `flipped` do. -/
-theorem gen_method_bodies :
-    PW.Gen.PlaneFn.signSrc = "np.sign(self.signed_distance(points))" ∧
-    PW.Gen.PlaneFn.signedDistanceMethodSrc = "signed_distance_to_plane(points, self.equation)" ∧
-    PW.Gen.PlaneFn.distanceSrc = "np.absolute(self.signed_distance(points))" ∧
-    PW.Gen.PlaneFn.projectMethodSrc = "project_point_to_plane(points, self.equation)" ∧
-    PW.Gen.PlaneFn.mirrorMethodSrc = "mirror_point_across_plane(points, self.equation)" ∧
-    PW.Gen.PlaneFn.canonicalPointSrc = "self.normal * self.reference_point.dot(self.normal)" ∧
-    PW.Gen.PlaneFn.flippedSrc = "Plane(normal=-self.normal, reference_point=self.reference_point)" :=
-  ⟨rfl, rfl, rfl, rfl, rfl, rfl, rfl⟩
 
 /-- the four masks: `np.greater(sign, 0)` / `np.less(sign, 0)` for `points_in_front`, `np.greater_equal(sign, 0)` /
     `np.less_equal(sign, 0)` for `points_on_or_in_front`, each applied to `self.sign(points)`; the model's masks are
@@ -340,5 +428,28 @@ theorem gen_front_masks :
   refine ⟨by decide, by decide, ⟨rfl, rfl, rfl, rfl⟩, ⟨rfl, rfl⟩, ?_⟩
   intro pl inverted pts
   exact ⟨rfl, rfl⟩
+
+/-- [text] what the symbolic reader does not interpret, pinned to the source the model was written from: for every
+    function read by `harness/translate/c05.py` its decorators, its parameter list with defaults, the statements whose
+    effect is not modelled (shape checks, asserts — any added in-place call, loop, `with`, `try`, `del`, … shows up
+    here), and the number of other bindings of its name in the enclosing scope (a module-level rebinding after the
+    `def` would make the function read here not the one that is called). -/
+theorem gen_function_shapes :
+    PW.Gen.PlaneFn.functionShapes =
+      [("project_point_to_plane", [], "points, plane_equations", ["expr check_shape_any(plane_equations, (4,), (-1 if check_shape_any(points, (3,), (-1, 3), name='points') is None else check_shape_any(points, (3,), (-1, 3), name='points'), 4), name='plane_equations')"], 0),
+       ("mirror_point_across_plane", [], "points, plane_equations", ["expr check_shape_any(plane_equations, (4,), (-1 if check_shape_any(points, (3,), (-1, 3), name='points') is None else check_shape_any(points, (3,), (-1, 3), name='points'), 4), name='plane_equations')"], 0),
+       ("translate_points_along_plane_normal", [], "points, plane_equations, factor", ["expr check_shape_any(plane_equations, (4,), (-1 if check_shape_any(points, (3,), (-1, 3), name='points') is None else check_shape_any(points, (3,), (-1, 3), name='points'), 4), name='plane_equations')", "assert isinstance(factor, numbers.Real)"], 0),
+       ("signed_distance_to_plane", [], "points, plane_equations", ["expr check_shape_any(plane_equations, (4,), (-1 if check_shape_any(points, (3,), (-1, 3), name='points') is None else check_shape_any(points, (3,), (-1, 3), name='points'), 4), name='plane_equations')"], 0),
+       ("normal_and_offset_from_plane_equations", [], "plane_equations", ["expr check_shape_any(plane_equations, (4,), (-1, 4), name='plane_equations')"], 0),
+       ("Plane.equation", ["property"], "self", [], 0),
+       ("Plane.sign", [], "self, points", [], 0),
+       ("Plane.signed_distance", [], "self, points", [], 0),
+       ("Plane.distance", [], "self, points", [], 0),
+       ("Plane.project_point", [], "self, points", [], 0),
+       ("Plane.mirror_point", [], "self, points", [], 0),
+       ("Plane.canonical_point", ["property"], "self", [], 0),
+       ("Plane.flipped", [], "self", [], 0),
+       ("Plane.points_in_front", [], "self, points, inverted=False, ret_indices=False", ["expr vg.shape.check(locals(), 'points', (-1, 3))"], 0),
+       ("Plane.points_on_or_in_front", [], "self, points, inverted=False, ret_indices=False", ["expr vg.shape.check(locals(), 'points', (-1, 3))"], 0)] := by rfl
 
 end PW.C05
